@@ -8,6 +8,7 @@ mod u10;
 mod u2;
 mod u2b;
 mod u3;
+mod u3b;
 mod u4;
 mod u5;
 mod u5c;
@@ -41,6 +42,8 @@ fn main() {
     ("u2b", "replay") => u2b::replay(rest),
     ("u10", "find") => u10::find(rest),
     ("u10", "replay") => u10::replay(rest),
+    ("u3b", "find") => u3b::find(rest),
+    ("u3b", "replay") => u3b::replay(rest),
     ("u4", "find") => u4::find(rest),
     ("u4", "replay") => u4::replay(rest),
     ("u5", "find") => u5::find(rest),
